@@ -93,6 +93,7 @@ Proof.
       assert (10 ^ g <= 10 ^ (p + g)) by (apply Z.pow_le_mono_r; lia).
       destruct (10 ^ g / 2 =? 0) eqn:Z0; [lia|]. assert (10 ^ g / 2 <= 10 ^ g) by (apply Z.div_le_upper_bound; lia). lia. }
     destruct (n =? 1) eqn:E2.
-    + assert (n = 1) by lia. subst n. replace (1 * 10 ^ (p + g) - 1 * 10 ^ (p + g)) with 0 by lia. cbn. lia.
+    + assert (n = 1) by lia. subst n. rewrite Z.sub_diag. change (Z.abs 0) with 0.
+      destruct (0 <? g_geps st) eqn:E3; [reflexivity|lia].
     + assert (10 ^ (p + g) <= Z.abs (n * 10 ^ (p + g) - 1 * 10 ^ (p + g))) by nia. lia.
 Defined.
